@@ -353,20 +353,22 @@ bool TimeZoneInfo::ExtendTransitions() {
     return EquivTransitions(transitions_.back().type_index, dst_ti);
   }
 
-  // Extend the transitions for an additional 401 years using the future
+  // Extend the transitions for an additional 402 years using the future
   // specification. Years beyond those can be handled by mapping back to
-  // a cycle-equivalent year within that range. Note that we need 401
-  // (well, at least the first transition in the 401st year) so that the
-  // end of the 400th year is mapped back to an extended year. And first
-  // we may also need two additional transitions for the current year.
-  transitions_.reserve(transitions_.size() + 2 + 402 * 2);
+  // a cycle-equivalent year within that range. Note that we need 402 so
+  // that the 400 years that later years are mapped back to (the last 400
+  // before last_year_) start two years after the last recorded transition:
+  // a gap or overlap at that transition can reach into the following year,
+  // which therefore does not follow the future specification alone. And
+  // first we may also need two additional transitions for the current year.
+  transitions_.reserve(transitions_.size() + 2 + 403 * 2);
   extended_ = true;
 
   const Transition& last(transitions_.back());
   const std::int_fast64_t last_time = last.unix_time;
   const TransitionType& last_tt(transition_types_[last.type_index]);
   last_year_ = LocalTime(last_time, last_tt).cs.year();
-  const year_t limit = last_year_ + 401;
+  const year_t limit = last_year_ + 402;
   // Start with the rules of the preceding year, as one of its transitions
   // may still be pending: a late-December date with a transition time of
   // up to a week lands in the following January.
